@@ -128,6 +128,13 @@ enum Cycle {
 }
 
 fn one_cycle(tx: &TxH, rx: &mut RxH, c: Cycle, id: &mut u64) {
+    one_cycle_kind(tx, rx, c, id, RecvKind::TryRecv);
+}
+
+/// `kind`: the only receive entry point the fixed receiver is ever operated through
+/// returns the number of sends accepted during the cycle
+fn one_cycle_kind(tx: &TxH, rx: &mut RxH, c: Cycle, id: &mut u64, kind: RecvKind) -> u32 {
+    let mut accepted = 0u32;
     match c {
         Cycle::AddStreamDrop => {
             if let Some(mut n) = rx.add_stream(false) {
@@ -143,7 +150,12 @@ fn one_cycle(tx: &TxH, rx: &mut RxH, c: Cycle, id: &mut u64) {
         }
         Cycle::CloneTxDrop => {
             let n = tx.clone_tx();
-            n.try_send(*id);
+            if let SendOut::Ok = n.try_send(*id) {
+                accepted += 1;
+                if kind.blocking() {
+                    rx.recv_kind(kind);
+                }
+            }
             *id += 1;
             n.drop_tx(false);
         }
@@ -162,9 +174,24 @@ fn one_cycle(tx: &TxH, rx: &mut RxH, c: Cycle, id: &mut u64) {
         }
     }
     // the fixed handles keep operating
-    tx.try_send(*id);
+    if let SendOut::Ok = tx.try_send(*id) {
+        accepted += 1;
+        if kind.blocking() {
+            // exactly one value is there for this stream: the blocking entry point returns it
+            rx.recv_kind(kind);
+        }
+    }
     *id += 1;
-    while let RecvOut::Val(_) = rx.recv_kind(RecvKind::TryRecv) {}
+    if !kind.blocking() {
+        let mut guard = 0;
+        while let RecvOut::Val(_) = rx.recv_kind(kind) {
+            guard += 1;
+            if guard > 64 {
+                break;
+            }
+        }
+    }
+    accepted
 }
 
 const GROWTH_BOUND: i64 = 16 * 1024;
@@ -202,18 +229,73 @@ pub fn run_growth(seed: u64, runs: u64, budget_ms: u64, max_cycles: u64, shard: 
         let cycles = *rng.pick(&[100u64, 1000, 10_000, 100_000]);
         let cycles = cycles.min(max_cycles);
         let (tx, mut rx) = api::create(fl, fut, cap, WaitKind::Busy, None);
+        // a second fixed receiver that is only ever operated through ONE receive entry point
+        // (every entry point must keep the handle's reclamation token up to date)
+        let mut fixed: Option<(RxH, RecvKind)> = None;
+        if fl == Flavour::Broadcast {
+            if let Some(mut f) = rx.add_stream(false) {
+                let want_uni = rng.chance(1, 2);
+                if want_uni {
+                    f.into_single();
+                }
+                let mut ks = f.supported_kinds(true);
+                ks.retain(|k| *k != RecvKind::IterNext);
+                if !fut && rng.chance(1, 5) {
+                    let with = f.is_uni() && rng.chance(1, 2);
+                    f.into_blocking_iter(with);
+                    ks = vec![RecvKind::IterNext];
+                }
+                let k = *rng.pick(&ks);
+                fixed = Some((f, k));
+            }
+        } else if rng.chance(1, 2) {
+            // move-out queue: one stream only; operate the one fixed receiver through one entry point
+            let want_uni = rng.chance(1, 2);
+            if want_uni {
+                rx.into_single();
+            }
+        }
+        let main_kind = if fl == Flavour::Mpmc {
+            let ks = rx.supported_kinds(true);
+            *rng.pick(&ks)
+        } else {
+            RecvKind::TryRecv
+        };
+        let fixed_name = match &fixed {
+            Some((f, k)) => format!("{}::{:?}", f.kind_name(), k),
+            None => format!("{}::{:?}", rx.kind_name(), main_kind),
+        };
         let mut id = 1u64;
         let warm = 64u64;
+        let mut cycle = |rx: &mut RxH, fixed: &mut Option<(RxH, RecvKind)>, c: Cycle, id: &mut u64| {
+            let accepted = one_cycle_kind(&tx, rx, c, id, main_kind);
+            if let Some((f, k)) = fixed.as_mut() {
+                // every value accepted in this cycle is waiting on the fixed stream as well
+                if k.blocking() {
+                    for _ in 0..accepted {
+                        f.recv_kind(*k);
+                    }
+                } else {
+                    let mut guard = 0;
+                    while let RecvOut::Val(_) = f.recv_kind(*k) {
+                        guard += 1;
+                        if guard > 64 {
+                            break;
+                        }
+                    }
+                }
+            }
+        };
         for _ in 0..warm {
             let c = *rng.pick(&kinds);
-            one_cycle(&tx, &mut rx, c, &mut id);
+            cycle(&mut rx, &mut fixed, c, &mut id);
         }
         let (b0, _) = calloc::live();
         let mut peak: i64 = 0;
         let mut done = 0u64;
         for n in 0..cycles {
             let c = *rng.pick(&kinds);
-            one_cycle(&tx, &mut rx, c, &mut id);
+            cycle(&mut rx, &mut fixed, c, &mut id);
             done = n + 1;
             if n % 64 == 63 {
                 let (b, _) = calloc::live();
@@ -226,7 +308,8 @@ pub fn run_growth(seed: u64, runs: u64, budget_ms: u64, max_cycles: u64, shard: 
         let (b1, _) = calloc::live();
         peak = peak.max(b1 - b0);
         let mut sig = Hasher64::new();
-        sig.add_str(&format!("{:?}{}{}{}{:?}", fl, fut, cap, with_nonlast_drop, cycles));
+        sig.add_str(&format!("{:?}{}{}{}{:?}{}", fl, fut, cap, with_nonlast_drop, cycles, fixed_name));
+        shard.stat(&format!("fixed_receiver_operated_only_through:{}", fixed_name), 1);
         shard.evaluations += 1;
         shard.distinct.insert(sig.get());
         shard.nontrivial.insert(sig.get());
@@ -261,6 +344,10 @@ pub fn run_growth(seed: u64, runs: u64, budget_ms: u64, max_cycles: u64, shard: 
                     .set("cfg", J::s(format!("{} fut={} cap={} nonlast={} cycles={}", fl.name(), fut, cap, with_nonlast_drop, done)))
                     .set("growth_bytes_after_warmup", J::Int(peak)),
             );
+        }
+        drop(cycle);
+        if let Some((f, _)) = fixed.take() {
+            f.drop_rx();
         }
         tx.drop_tx(false);
         rx.drop_rx();
@@ -314,6 +401,8 @@ pub struct StressCfg {
     pub writers: u32,
     pub readers: u32,
     pub churners: u32,
+    /// threads whose ONLY handle is a stream handle handed to them by a churner, which they drop
+    pub droppers: u32,
     pub idle_handles: bool,
     pub cycles_per_churner: u64,
     pub policy: Policy,
@@ -325,13 +414,14 @@ pub struct StressCfg {
 impl StressCfg {
     pub fn describe(&self) -> String {
         format!(
-            "stress {}{} cap={} writers={} readers={} churners={} idle_handles={} cycles={} policy={} plan=[{}]",
+            "stress {}{} cap={} writers={} readers={} churners={} droppers={} idle_handles={} cycles={} policy={} plan=[{}]",
             self.fl.name(),
             if self.fut { "-fut" } else { "" },
             self.cap,
             self.writers,
             self.readers,
             self.churners,
+            self.droppers,
             self.idle_handles,
             self.cycles_per_churner,
             self.policy.name(),
@@ -368,6 +458,22 @@ pub fn gen_stress(rng: &mut Rng, small: bool) -> StressCfg {
             (site::RX_UNSUB_REMOVED, a),
             (site::TS_ENTRY, p),
         ];
+        // a thread that has just loaded the stream-list pointer pauses until some other thread has
+        // executed deferred frees: only safe if its own token really holds reclamation back
+        for (s, roles) in [(site::RR_LOADED, a), (site::AS_LOADED, a), (site::GMD_LOADED_PTR, p), (site::GMD_BETWEEN_READERS, p)].iter() {
+            if rng.chance(1, 2) {
+                plan.push(Stall {
+                    site: *s,
+                    roles: *roles,
+                    nth: 1 + rng.below(30) as u32,
+                    events: rng.below(20) as u32,
+                    until: Some(site::MM_DEALLOC),
+                    gate: None,
+                    cap_us: 1500,
+                    max_pauses: 40,
+                });
+            }
+        }
         for _ in 0..(1 + rng.below(4)) {
             let (s, roles) = *rng.pick(&sites);
             plan.push(Stall {
@@ -389,6 +495,7 @@ pub fn gen_stress(rng: &mut Rng, small: bool) -> StressCfg {
         writers: 1 + rng.below(2) as u32,
         readers: 1 + rng.below(2) as u32,
         churners: 1 + rng.below(2) as u32,
+        droppers: if fl == Flavour::Broadcast { rng.below(3) as u32 } else { 0 },
         idle_handles: rng.chance(1, 4),
         cycles_per_churner: if small { 30 + rng.below(30) } else { 300 + rng.below(1500) },
         policy,
@@ -449,6 +556,43 @@ pub fn run_stress(cfg: &StressCfg, shard: &mut Shard) -> (u64, u64, bool) {
         writer_handles.push(tx0.clone_tx());
     }
     let total_threads = cfg.writers + cfg.readers + cfg.churners;
+    // hand-off of freshly created stream handles to the dropper threads
+    let (hand_tx, hand_rx) = std::sync::mpsc::channel::<RxH>();
+    let hand_rx = Arc::new(std::sync::Mutex::new(hand_rx));
+    let mut dropper_joins = Vec::new();
+    for d in 0..cfg.droppers {
+        let sh = sh.clone();
+        let seed = rng.next();
+        let policy = cfg.policy;
+        let plan = cfg.plan.clone();
+        let my = 20 + d;
+        let rxq = hand_rx.clone();
+        dropper_joins.push(std::thread::spawn(move || {
+            hooks::thread_begin(my, crate::conc::ROLE_AUX, seed, policy, &plan);
+            hist::set_enabled(false);
+            loop {
+                let got = {
+                    let g = rxq.lock().unwrap();
+                    g.recv_timeout(Duration::from_millis(2))
+                };
+                match got {
+                    Ok(mut h) => {
+                        h.recv_kind(RecvKind::TryRecv);
+                        // the only handle this thread owns
+                        h.drop_rx();
+                    }
+                    Err(std::sync::mpsc::RecvTimeoutError::Timeout) => {
+                        if sh.stop.load(SeqCst) {
+                            break;
+                        }
+                    }
+                    Err(_) => break,
+                }
+            }
+            hooks::thread_end();
+        }));
+    }
+    let have_droppers = cfg.droppers > 0;
     for tx in writer_handles {
         let sh = sh.clone();
         let seed = rng.next();
@@ -522,6 +666,7 @@ pub fn run_stress(cfg: &StressCfg, shard: &mut Shard) -> (u64, u64, bool) {
         let my = tid;
         let cycles = cfg.cycles_per_churner;
         let fl = cfg.fl;
+        let hand = hand_tx.clone();
         joins.push(std::thread::spawn(move || {
             hooks::thread_begin(my, crate::conc::ROLE_AUX, seed, policy, &plan);
             hist::set_enabled(false);
@@ -547,7 +692,17 @@ pub fn run_stress(cfg: &StressCfg, shard: &mut Shard) -> (u64, u64, bool) {
                     &[Cycle::CloneRxDrop, Cycle::CloneTxDrop]
                 };
                 let c = *r.pick(kinds);
-                one_cycle(&ctx, &mut crx, c, &mut id);
+                if have_droppers && r.chance(1, 2) {
+                    // create a stream and hand its only handle to a dropper thread
+                    if let Some(n) = crx.add_stream(false) {
+                        let _ = hand.send(n);
+                    }
+                    ctx.try_send(id);
+                    id += 1;
+                    while let RecvOut::Val(_) = crx.recv_kind(RecvKind::TryRecv) {}
+                } else {
+                    one_cycle(&ctx, &mut crx, c, &mut id);
+                }
                 sh.cycles.fetch_add(1, SeqCst);
                 if n % 8 == 0 {
                     hold_point(&sh, &mut my_round, &mut || one_cycle(&ctx, &mut crx, Cycle::CloneTxDrop, &mut id));
@@ -640,9 +795,20 @@ pub fn run_stress(cfg: &StressCfg, shard: &mut Shard) -> (u64, u64, bool) {
         std::thread::yield_now();
     }
     sh.stop.store(true, SeqCst);
+    drop(hand_tx);
     for j in joins {
         let _ = j.join();
     }
+    for j in dropper_joins {
+        let _ = j.join();
+    }
+    // handles still in the hand-off queue
+    if let Ok(g) = hand_rx.lock() {
+        while let Ok(h) = g.try_recv() {
+            h.drop_rx();
+        }
+    }
+    hooks::watch_off();
     for (t, r) in idle.drain(..) {
         if let Some(t) = t {
             t.drop_tx(false);
